@@ -375,6 +375,12 @@ pub fn explore_scenario(fx: &Fixture, sc: &Scenario, bound: Option<usize>, max_s
                     st.violation(&comp, Box::leak(clause.clone().into_boxed_str()), x.preemptions() as u64 * 1000 + x.points.len() as u64, || detail.clone(), || json!({"scenario": sc.name, "schedule": choices, "schedule_labels": labels, "preemptions": x.preemptions()}));
                 }
             }
+            // a deadlocked execution leaves its worker threads stuck for good (they are abandoned, a fresh set of pools
+            // is created): one deadlock per scenario is reported and the exploration of that scenario stops there
+            if x.deadlock.is_some() {
+                st.notes.insert(format!("{}: exploration stopped at the first deadlock", sc.name));
+                return false;
+            }
             true
         };
         explore(bound, max_schedules, &mut run, &mut check)
@@ -453,7 +459,15 @@ fn histories(fx: &Fixture, tier: Tier, st: &mut Stats) {
                             expected_ids.push(q["qid"].as_str().unwrap().to_string());
                         }
                         let alone_r: Vec<Value> = queries.iter().map(|q| app.run(vec![q.clone()], None).ok().and_then(|r| r.first().map(project)).unwrap_or(Value::Null)).collect();
-                        match guarded(|| app.run(queries.clone(), Some(&cfg)).map_err(|e| e.to_string())) {
+                        let (a2, q2, c2) = (fx.app.clone(), queries.clone(), cfg.clone());
+                        let answer = match crate::engine::with_deadline(60, move || guarded(|| a2.run(q2, Some(&c2)).map_err(|e| e.to_string()))) {
+                            Some(a) => a,
+                            None => {
+                                st.violation(&comp, "returns_in_bounded_time", seq.len() as u64, || "CompassApp::run did not return within 60 s (worker pool stuck); the rest of this run is skipped".to_string(), case);
+                                return;
+                            }
+                        };
+                        match answer {
                             Err(p) => {
                                 st.violation(&comp, "no_panic", seq.len() as u64, || p.clone(), case);
                                 ok = false;
